@@ -435,6 +435,11 @@ assume func Sprintfn_printer(p *pp)
   may-panic
   ensures-always PI(p) && Same(p) && Kept(p) && WP(p.fmt) && inv(p.buf)
 
+-- C12: the package-level state two calls can share. Everything else a call touches is its own printer.
+shared rfmt.ppFree "sync.Pool is safe for concurrent use and hands an object to one caller at a time (its documented contract); what is Put obeys PoolInv"
+shared rfmt.safeTypeRegistry "written only by RegisterSafeType; registering types while other goroutines print is outside the claim (set-up time configuration), printing only reads it"
+shared rfmt.redactErrorFn "written only by RegisterRedactErrorFn; same set-up time rule, printing only reads it"
+
 -- the registered hook is the function the caller gave, not a stand-in for it (C17)
 func RegisterRedactErrorFn(fn func(err error, p i.SafePrinter, verb rune))
   modifies G$redactErrorFn
